@@ -76,6 +76,12 @@ func vfRewrite(sdpText, class, place string, der []byte) string {
 	case "sha512-correct":
 		h := sha512.Sum512(der)
 		algo, val = "sha-512", vfColon(h[:])
+	case "unknown-hash":
+		algo, val = "sha3-256", strings.Repeat("AB:", 31)+"AB"
+	case "unknown-hash-sha256-value":
+		algo = "blake2b"
+	case "absent":
+		return vfFpRe.ReplaceAllString(sdpText, "")
 	}
 	line := "a=fingerprint:" + algo + " " + val + "\r\n"
 	stripped := vfFpRe.ReplaceAllString(sdpText, "")
@@ -112,6 +118,20 @@ func vfCert(t *testing.T, kind string) []Certificate {
 			t.Fatal(err)
 		}
 		return []Certificate{*c}
+	case "two", "two-reconfigured":
+		out := []Certificate{}
+		for i := 0; i < 2; i++ {
+			k, err := ecdsa.GenerateKey(elliptic.P256(), rand.Reader)
+			if err != nil {
+				t.Fatal(err)
+			}
+			c, err := GenerateCertificate(k)
+			if err != nil {
+				t.Fatal(err)
+			}
+			out = append(out, *c)
+		}
+		return out
 	}
 	return nil
 }
@@ -175,7 +195,12 @@ func vfRun(t *testing.T, tr *vkTrace, id int, v vfVec) { //nolint:cyclop
 	if v.Verifier == "offerer" {
 		verifier, presenter = off, ans
 	}
-	der := presenter.configuration.Certificates[0].x509Cert.Raw
+	if v.Cert == "two-reconfigured" {
+		c := presenter.GetConfiguration()
+		c.Certificates = []Certificate{presenterCfg.Certificates[1], presenterCfg.Certificates[0]}
+		_ = presenter.SetConfiguration(c) // refused or not: judged by what is advertised and presented afterwards
+	}
+	der := presenter.dtlsTransport.certificates[0].x509Cert.Raw // what the DTLS transport presents
 	var mu sync.Mutex
 	states := map[*PeerConnection][]string{}
 	for _, pc := range []*PeerConnection{off, ans} {
